@@ -454,13 +454,13 @@ SPEC = Property(
     layers=[
         Layer("ble-encode-grid", run_encode_grid, enumerate=enum_encode_grid, exhaustive=True,
               space="fragment sizes 8..64 x body lengths 0..200 = 11,457 cells", min_nontrivial=50),
-        Layer("ble-encode-gen", run_encode, strategy=encode_cases, n={"quick": 3000, "thorough": 60000}, min_nontrivial=500),
+        Layer("ble-encode-gen", run_encode, strategy=encode_cases, n={"quick": 12000, "thorough": 120000}, min_nontrivial=500),
         Layer("ble-read-compositions", run_read, enumerate=enum_read, exhaustive=True,
               space="all fragmentations (first piece >=0, later pieces >=1) of bodies of 0..10 (quick) / 0..12 (thorough) bytes", min_nontrivial=1000),
-        Layer("ble-read-gen", run_read, strategy=read_cases, n={"quick": 4000, "thorough": 80000}, min_nontrivial=500),
+        Layer("ble-read-gen", run_read, strategy=read_cases, n={"quick": 16000, "thorough": 160000}, min_nontrivial=500),
         Layer("coap-batch-exhaustive", run_coap, enumerate=enum_coap, exhaustive=True,
               space="all outcome vectors over 7 item kinds for batches of 1..4 items (2800)", min_nontrivial=1000),
-        Layer("coap-batch-gen", run_coap, strategy=coap_cases, n={"quick": 3000, "thorough": 60000}),
+        Layer("coap-batch-gen", run_coap, strategy=coap_cases, n={"quick": 12000, "thorough": 120000}),
         Layer("coap-encode-gen", run_coap_encode, strategy=coap_encode_cases, n={"quick": 1000, "thorough": 20000}),
         *C17_BLE_LAYERS,
     ],
